@@ -200,6 +200,11 @@ structure Writer where
   deferred : List Nat             -- w.deferredBloomFilters
   deferredSize : Nat
   fileMetaData : Option (Nat × Nat)  -- w.fileMetaData: none = zero value; (rows, row groups)
+  /-- `SortingWriter.dedupe.lastRow` (dedupe.go 68-76): the last row the duplicate dropper has seen.
+  State of the sorting writer that wraps this writer (empty for a plain writer); the next sorted
+  chunk drops a leading row equal to it. `SortingWriter.Reset` / `resetSortingBuffer`
+  (sorting.go 136-150) do NOT clear it. -/
+  dedupeLastRow : List Nat
 deriving DecidableEq
 
 /-- MIRROR `(*ColumnMetaData).Reset` format/reset.go 97-124 through `(*ColumnChunk).Reset` 80-93:
@@ -226,11 +231,19 @@ structure Mirror where
   a page whose bound is the empty byte string is `Value.Bytes()` — nil (field absent) when the
   buffer has never held data, empty-but-present when it has. -/
   readsAllocation : Bool
+  /-- `dedupe.lastRow` after `SortingWriter.sortAndWriteBufferedRows` (sorting.go 195-229) handled a
+  chunk whose last row is the argument: the code sets it in `deduplicate` and clears it again in
+  the deferred `w.dedupe.reset()`, so nothing is carried to the next chunk (or file) -/
+  dedupeAfterChunk : List Nat → List Nat
 
 /-- the code before the repairs -/
-def asIs : Mirror := ⟨colResetAsIs, rowGroupResetHeap, true⟩
+def asIs : Mirror := ⟨colResetAsIs, rowGroupResetHeap, true, fun _ => []⟩
 /-- the repaired code -/
-def fixed : Mirror := ⟨colResetFixed, fun h rg => rowGroupResetHeap h rg.detach, false⟩
+def fixed : Mirror := ⟨colResetFixed, fun h rg => rowGroupResetHeap h rg.detach, false, fun _ => []⟩
+/-- a variant of `fixed` without the deferred `w.dedupe.reset()` ("carry the last row to the next
+chunk"): harmless inside one file (the final merge drops duplicates anyway), refuted across
+`Reset` in Props/C17 -/
+def dedupeCarry : Mirror := { fixed with dedupeAfterChunk := fun last => last }
 
 /-- MIRROR `(*writer).reset`, writer.go 1201-1233 -/
 def resetWith (M : Mirror) (s : Writer) : Writer :=
@@ -282,7 +295,7 @@ def initWith (cfg : Cfg) (md : List KV) : Writer :=
   { heap := { strs := cfg.cols.map (·.path), encs := cfg.cols.map (·.encodings), sorts := [cfg.sorting] }
     cols := initCols 0 cfg.cols, numRows := 0, offset := 0, pending := [], metadata := md,
     sorting := ⟨0, cfg.sorting.length⟩, rowGroups := [], columnIndexes := [], offsetIndexes := [],
-    deferred := [], deferredSize := 0, fileMetaData := none }
+    deferred := [], deferredSize := 0, fileMetaData := none, dedupeLastRow := [] }
 
 def init (cfg : Cfg) : Writer := initWith cfg cfg.metadata
 
@@ -303,6 +316,9 @@ inductive Op
   /-- Close: flush, deferred blooms, footer (which may fail) -/
   | close (k : FlushKind) (footerOk : Bool) (offset : Nat)
   | setKV (key value : Str)
+  /-- SortingWriter: a buffered chunk is sorted, de-duplicated and written to the temporary
+  writer; `last` is the chunk's last row -/
+  | sortChunk (last : List Nat)
   | reset
 deriving DecidableEq
 
@@ -380,6 +396,7 @@ def step (M : Mirror) (s : Writer) : Op → Writer
   | .flush k => flushStep M s k
   | .close k ok off => closeStep M s k ok off
   | .setKV k v => { s with metadata := setKV k v s.metadata }
+  | .sortChunk last => { s with dedupeLastRow := M.dedupeAfterChunk last }
   | .reset => resetWith M s
 
 def run (M : Mirror) (cfg : Cfg) (ops : List Op) : Writer := ops.foldl (step M) (init cfg)
@@ -419,6 +436,7 @@ structure Obs where
   deferred : List Nat
   deferredSize : Nat
   fileMetaData : Option (Nat × Nat)
+  dedupeLastRow : List Nat
 deriving DecidableEq
 
 def observeCol (ra : Bool) (h : Heap) (c : Col) : ColObs :=
@@ -435,7 +453,7 @@ def observe (M : Mirror) (s : Writer) : Obs :=
     pending := s.pending, metadata := s.metadata, sorting := s.heap.derefSorts s.sorting,
     rowGroups := s.rowGroups.map (observeRowGroup s.heap), columnIndexes := s.columnIndexes,
     offsetIndexes := s.offsetIndexes, deferred := s.deferred, deferredSize := s.deferredSize,
-    fileMetaData := s.fileMetaData }
+    fileMetaData := s.fileMetaData, dedupeLastRow := s.dedupeLastRow }
 
 /-! ## invariants -/
 
@@ -584,7 +602,8 @@ theorem observed_resetAsIs (c : Col) (h : ColOK c) (hp : c.vol.plainBuffered = [
 def freshObs (ra : Bool) (st : Stable) (md : List KV) : Obs :=
   { cols := st.cols.map (fun cs => observeCol ra st.heap ⟨cs, ColVol.fresh cs⟩), numRows := 0, offset := 0,
     pending := [], metadata := md, sorting := st.heap.derefSorts st.sorting, rowGroups := [],
-    columnIndexes := [], offsetIndexes := [], deferred := [], deferredSize := 0, fileMetaData := none }
+    columnIndexes := [], offsetIndexes := [], deferred := [], deferredSize := 0, fileMetaData := none,
+    dedupeLastRow := [] }
 
 theorem observe_initWith (M : Mirror) (cfg : Cfg) (md : List KV) :
     observe M (initWith cfg md) = freshObs M.readsAllocation (stableOf (initWith cfg md)) md := by
@@ -601,9 +620,10 @@ theorem observe_initWith (M : Mirror) (cfg : Cfg) (md : List KV) :
 structure Mirror.Good (M : Mirror) : Prop where
   st : ∀ c, (M.colReset c).st = c.st
   ok : ∀ c, ColOK c → ColOK (M.colReset c)
+  dedupe : ∀ l, M.dedupeAfterChunk l = []
 
-theorem asIs_good : asIs.Good := ⟨colReset_st_asIs, colOK_resetAsIs⟩
-theorem fixed_good : fixed.Good := ⟨colReset_st_fixed, colOK_resetFixed⟩
+theorem asIs_good : asIs.Good := ⟨colReset_st_asIs, colOK_resetAsIs, fun _ => rfl⟩
+theorem fixed_good : fixed.Good := ⟨colReset_st_fixed, colOK_resetFixed, fun _ => rfl⟩
 
 theorem map_colReset_st (M : Mirror) (hM : M.Good) (cs : List Col) :
     (cs.map M.colReset).map (·.st) = cs.map (·.st) := by
@@ -682,6 +702,7 @@ theorem stableOf_step (M : Mirror) (hM : M.Good) (s : Writer) (op : Op)
   | flush k => exact stableOf_flushStep M hM s k
   | close k ok off => exact stableOf_closeStep M hM s k ok off
   | setKV k v => rfl
+  | sortChunk last => rfl
   | reset => simp [step, resetWith, stableOf, hheap rfl, map_colReset_st M hM]
 
 theorem allOK_step (M : Mirror) (hM : M.Good) (s : Writer) (op : Op) (h : AllOK s) : AllOK (step M s op) := by
@@ -690,6 +711,7 @@ theorem allOK_step (M : Mirror) (hM : M.Good) (s : Writer) (op : Op) (h : AllOK 
   | flush k => exact allOK_flushStep M hM s k h
   | close k ok off => exact allOK_closeStep M hM s k ok off h
   | setKV k v => exact h
+  | sortChunk last => exact h
   | reset => exact map_colReset_ok M hM s.cols h
 
 theorem fixed_heap (s : Writer) : s.rowGroups.foldl fixed.rowGroupReset s.heap = s.heap :=
@@ -705,9 +727,10 @@ theorem observeCol_reset (ra : Bool) (h : Heap) (c c' : Col) (h1 : c'.st = c.st)
 theorem observe_resetWith (M : Mirror) (s : Writer)
     (hheap : s.rowGroups.foldl M.rowGroupReset s.heap = s.heap)
     (hcols : ∀ c ∈ s.cols, (M.colReset c).st = c.st ∧
-      (M.colReset c).vol.observed M.readsAllocation = (ColVol.fresh c.st).observed M.readsAllocation) :
+      (M.colReset c).vol.observed M.readsAllocation = (ColVol.fresh c.st).observed M.readsAllocation)
+    (hd : s.dedupeLastRow = []) :
     observe M (resetWith M s) = freshObs M.readsAllocation (stableOf s) s.metadata := by
-  simp only [observe, resetWith, freshObs, stableOf, hheap, List.map_map, List.map_nil]
+  simp only [observe, resetWith, freshObs, stableOf, hheap, hd, List.map_map, List.map_nil]
   congr 1
   apply List.map_congr_left
   intro c hc
@@ -742,6 +765,7 @@ theorem rowGroups_step_noCommit (M : Mirror) (s : Writer) (op : Op) (hc : op.com
       · split <;> simpa [hf] using h
     | committed off' defs snap => simp [Op.commits] at hc
   | setKV k v => exact h
+  | sortChunk last => exact h
   | reset => rfl
 
 /-! ### induction over histories -/
@@ -760,6 +784,23 @@ theorem run_invariant (ops : List Op) (M : Mirror) (hM : M.Good) (cfg : Cfg)
     refine ⟨hP s0 op h0.1 List.mem_cons_self, ?_, allOK_step M hM s0 op h0.2.2⟩
     rw [stableOf_step M hM s0 op (fun _ => heap s0 h0.1)]
     exact h0.2.1
+
+/-- under a mirror that clears it after every chunk, the dedupe state is empty in every reachable state -/
+theorem dedupe_step (M : Mirror) (hM : M.Good) (s : Writer) (op : Op) (h : s.dedupeLastRow = []) :
+    (step M s op).dedupeLastRow = [] := by
+  cases op with
+  | write rows effs => exact h
+  | flush k =>
+    simp only [step, flushStep]
+    split
+    · exact h
+    · cases k <;> exact h
+  | close k ok off =>
+    simp only [step, closeStep, flushStep]
+    split <;> split <;> (try split) <;> (try cases k) <;> exact h
+  | setKV k v => exact h
+  | sortChunk last => exact hM.dedupe last
+  | reset => exact h
 
 theorem init_allOK (cfg : Cfg) : AllOK (init cfg) := initCols_ok 0 cfg.cols
 
@@ -781,6 +822,7 @@ theorem metadata_step (M : Mirror) (s : Writer) (op : Op) (h : Op.isSetKV op = f
     simp only [step, closeStep, flushStep]
     split <;> split <;> (try split) <;> (try cases k) <;> rfl
   | setKV k v => simp [Op.isSetKV] at h
+  | sortChunk last => rfl
   | reset => rfl
 
 theorem metadata_run (M : Mirror) (ops : List Op) (h : ∀ op ∈ ops, Op.isSetKV op = false)
